@@ -16,6 +16,7 @@ Definition base_name (c : N) : bytes :=
   else if c =? 8 then [78;111;79;112;65;114;103]                              (* NoOpArg *)
   else if c =? 9 then [80;97;114;115;101]                                     (* Parse *)
   else if c =? 10 then [82;101;102;101;114;101;110;99;101]                    (* Reference *)
+  else if c =? 11 then [78;111;110;101;69;114;114;111;114]                     (* NoneError *)
   else 63 :: dec_of_N c.
 Fixpoint chain_text (e : perr) : bytes :=
   match e with
@@ -113,14 +114,30 @@ Fixpoint build_table (es : list bytes) (E : env) : option env :=
     match x with Some x => build_table t (set_nth (N.to_nat (N_of_dec i)) x E) | None => None end
   end.
 
+(* the key field: `key`, or `key=<canon>` when the comparison dictionary B carries that value under the key instead of
+   lacking the key (array elements: the array without the planted element) *)
+Fixpoint split_eq (l : bytes) : bytes * option bytes :=
+  match l with
+  | [] => ([], None)
+  | c :: t => if c =? 61 then ([], Some t) else let (a, b) := split_eq t in (c :: a, b)
+  end.
+
 Definition run_dangling (fs : list bytes) : res (list bytes) :=
   let allow := if beqb (field fs 0) [116] then opt_tolerant_allow_error_in_option else opt_strict_allow_error_in_option in
   match ty_by_name (field fs 1), parse_canon (field fs 2), parse_canon (field fs 4),
         build_table (skipn 6 fs) (repeatN XInvalid (N.to_nat (N_of_dec (field fs 5))) ++ [XFree]) with
   | Some t, Some (PDict d), Some r, Some E =>
-    do a <- step allow E t (PDict (dinsert (field fs 3) r d));
-    let E' := match snd a with Some (_, E') => E' | None => E end in
-    do b <- step allow E' t (PDict (ddel (field fs 3) d));
-    Ok (fst a ++ [124] :: fst b)
+    let (key, alt) := split_eq (field fs 3) in
+    match (match alt with
+           | None => Some (ddel key d)
+           | Some a => match parse_canon a with Some q => Some (dinsert key q d) | None => None end
+           end) with
+    | None => Err 1000
+    | Some dB =>
+      do a <- step allow E t (PDict (dinsert key r d));
+      let E' := match snd a with Some (_, E') => E' | None => E end in
+      do b <- step allow E' t (PDict dB);
+      Ok (fst a ++ [124] :: fst b)
+    end
   | _, _, _, _ => Err 1000
   end.
